@@ -527,7 +527,14 @@ def main():
                 r1, a1, k1, rec1 = run(False)
                 rec1.pop("exc_obj", None)
                 canon = [[sorted((k, v % p) for k, v in L.lc.items() if v % p) for L in con] for con in be.constraints[g.n0[2]:]]
-                sigs.append(dict(counts=rec1["counts"], constraints=canon, outcome=rec1["outcome"]))
+                res_sig = []
+                if rec1["outcome"] == "return":
+                    for x in flatten(r1):
+                        try:
+                            res_sig.append(sorted((k, v % p) for k, v in lc_of(x).lc.items() if v % p))
+                        except Exception:
+                            res_sig.append(None)
+                sigs.append(dict(counts=rec1["counts"], constraints=canon, outcome=rec1["outcome"], result_wires=res_sig))
                 out["runs"].append(rec1)
             out["trace_signatures_equal"] = all(s == sigs[0] for s in sigs)
             confirmed = len(sigs) > 1 and not out["trace_signatures_equal"] and all(s["outcome"] == "return" for s in sigs)
